@@ -34,6 +34,10 @@ type Obs struct {
 	PreWrites int
 	PreLines  [][]byte
 	PreMarks  []uint64
+	// the other events the program started while this one was being built ("log" ops, nested.go), in the order they
+	// were started, and every Write call that reached their writer
+	Nested    []NestedRun
+	NestLines [][]byte
 }
 
 // Prelude: events that are NOT enabled, started on the case's logger before the case's own event, on the
@@ -111,10 +115,12 @@ func (c *Case) Run() (obs Obs) {
 	zerolog.TimestampFunc = func() time.Time { return now }
 	Marks = nil
 	w := &capture{}
+	resetNested()
 	defer func() {
 		if r := recover(); r != nil {
 			obs.Panic = r
 		}
+		obs.Nested, obs.NestLines = nestedRuns, nestW.lines
 		obs.Marks = append([]uint64{}, Marks...)
 		obs.Writes = len(w.lines)
 		if len(w.lines) > 0 {
@@ -168,6 +174,10 @@ func (c *Case) Run() (obs Obs) {
 		e := startEvent(l, c.Level, c.EntryUsed())
 		ApplyEvent(e, c.Ops)
 		finish(e, c.Fin, string(c.Msg))
+	}
+	// events the program started and kept (Nested.Late) are finalized now, in the order they were started
+	for i := 0; i < len(deferred); i++ {
+		deferred[i]()
 	}
 	return
 }
